@@ -11,7 +11,7 @@ RULE = ("all binary matrices with R in 2..4 raters and Ns in 1..4 items (exhaust
 LEVEL = ("theorems computeTsNum_eq_pairs, computeTs_eq_fraction, computeTs_range, computeTs_one_iff, invariance under "
          "rater order and label swap, tsDist_reference; model validated against irr.compute_ts, simulate_ts_dist, "
          "simulate_npc_dist")
-ASSUMPTIONS = ["invariance under item order is checked on the implementation, not proved",
+ASSUMPTIONS = ["invariance under item order: Extra.computeTs_perm_items, and checked on the implementation",
                "inverse_n_weight's size**(-1/2) weights are taken as the doubles NumPy computes"]
 
 
